@@ -510,7 +510,7 @@ class IOBasePayload(Payload):
         return size, self._value.read(
             min(
                 DEFAULT_CHUNK_SIZE,
-                size or DEFAULT_CHUNK_SIZE,
+                DEFAULT_CHUNK_SIZE if size is None else size,
                 remaining_content_len or DEFAULT_CHUNK_SIZE,
             )
         )
@@ -800,7 +800,7 @@ class TextIOPayload(IOBasePayload):
         chunk = self._value.read(
             min(
                 DEFAULT_CHUNK_SIZE,
-                size or DEFAULT_CHUNK_SIZE,
+                DEFAULT_CHUNK_SIZE if size is None else size,
                 remaining_content_len or DEFAULT_CHUNK_SIZE,
             )
         )
